@@ -43,6 +43,51 @@ Fixpoint segs_ok (cur : string) (s : string) : bool :=
   end.
 Definition clean_meta (k : string) : bool := segs_ok "" k.
 
+(* ---- key normalisation ---------------------------------------------------------------------
+   Every key passes through path.Clean twice before it reaches the database: pkg/store/kv.go GenerateKey
+   (`key := "/" + strings.Join(fields, "/"); return path.Clean(key)`) and go-datastore key.go ds.NewKey
+   (Key.Clean: `path.Clean(k.string)` on a rooted key).  path.Clean on a rooted path: the path is cut at every
+   '/', empty and "." elements vanish, ".." removes the element before it (and vanishes at the root), what is left
+   is joined with single slashes (the root alone is "/").  It is idempotent, so once is what twice is.
+   [key_clean] is that function; the builders above are what it returns for the texts the code hands it - for
+   the hash index this is a THEOREM (Proofs/StoreProofs.v index_key_normal: the hex text of a hash is ONE clean
+   element, so normalisation changes nothing and identifies no two hashes), and the key pairs of the cases files
+   (harness/c14 rawKeyPairs, evaluated as [keys_ok] of each case) compare [key_clean] with the real GenerateKey /
+   ds.NewKey on texts with doubled slashes and dot elements. *)
+Fixpoint split_slash (s : string) : list string :=                  (* strings.Split(s, "/") *)
+  match s with
+  | EmptyString => [EmptyString]
+  | String c r =>
+      if Ascii.eqb c "/"%char then EmptyString :: split_slash r
+      else match split_slash r with
+           | x :: t => String c x :: t
+           | [] => [String c EmptyString]
+           end
+  end.
+(* the kept elements, last one first *)
+Definition clean_step (stack : list string) (c : string) : list string :=
+  if String.eqb c "" || String.eqb c "." then stack
+  else if String.eqb c ".." then tl stack
+  else c :: stack.
+Definition join_path (elems : list string) : string :=
+  match elems with
+  | [] => "/"
+  | _ => fold_left (fun acc c => acc ++ String "/"%char c) elems EmptyString
+  end.
+Definition key_clean (s : string) : string :=
+  join_path (rev (fold_left clean_step (split_slash s) [])).
+
+(* the text GenerateKey([]string{indexPrefix, text}) cleans, for ANY textual form of a hash *)
+Definition index_text_key (text : string) : string := key_clean ("/i/" ++ text).
+
+(* a text that is ONE clean path element: not empty, no '/' in it, no '.' in it (hence neither "." nor "..") *)
+Fixpoint plain_text (s : string) : bool :=
+  match s with
+  | EmptyString => true
+  | String c r => negb (Ascii.eqb c "/"%char) && negb (Ascii.eqb c "."%char) && plain_text r
+  end.
+Definition one_element (s : string) : bool := negb (String.eqb s "") && plain_text s.
+
 (* ---- operations ---------------------------------------------------------------------- *)
 Inductive op :=
 | OSetHeight (n : N) | OHeight
